@@ -21,7 +21,7 @@ func init() {
 		Title: "Interrupts and abnormal exits: prompt delivery, clean unwind, reusable runtime",
 		Rule: fmt.Sprintf("programs = every nesting (quick: depth 1, thorough: depth <= 2; throw family: depth <= 2 in both tiers) of the %d context wrappers around each body; ", len(wrappers)) +
 			"one case = (program, injection): interrupt families inject at EVERY evaluation step k of the program (non-terminating bodies: k <= 60 quick, k <= 200 / 100 at depth 1 / 2 thorough), " +
-			"hostpanic at every tick call x 4 payloads, throw/limits have one case per program / grid point; limits-entry = 17 Go-side entry routes at rest x L 0..5 x d around the threshold, each followed by rest-state and threshold-unmoved probes; entry = 11 API entry routes x 4 channel-installation times x {pre-queued, every step k} x {panic, record}. Each case runs on a fresh runtime " +
+			"hostpanic at every tick call x 4 payloads, throw/limits have one case per program / grid point; limits-entry = 23 Go-side entry routes at rest x L 0..5 x d around the threshold, each followed by rest-state and threshold-unmoved probes; unbuffered = capacity-0 channel with a sender goroutine parked in the send before Run and at every step k; entry = 11 API entry routes x 4 channel-installation times x {pre-queued, every step k} x {panic, record}. Each case runs on a fresh runtime " +
 			"(plus a follow-up program and a second injected run on the same runtime). A case is non-trivial when the injection lands while the " +
 			"runtime is not at global level (a function/native frame, a pending label or a try/catch block is active at step k) or, for the " +
 			"throw/hostpanic/limits families, when the abnormal exit crosses at least one wrapper frame.",
@@ -30,6 +30,7 @@ func init() {
 			{Name: "limits", Run: runLimits},
 			{Name: "limits-entry", Run: runLimitsEntry},
 			{Name: "entry", Run: runEntryFamily},
+			{Name: "unbuffered", Run: runUnbufferedFamily},
 			{Name: "throw", Run: runThrow},
 			{Name: "hostpanic", Run: runHostPanic},
 			{Name: "interrupt-record", Run: runInterruptRecord},
@@ -42,6 +43,7 @@ func init() {
 			"global state is observed through Otto.Get / Object.Get on a fixed list of globals that the generated programs use exclusively (no var, no other names)",
 			"the wrapper model (ES5 12.14 try/catch/finally propagation, 12.10 with, 10.4.2 eval code, 15.3.2.1 Function) predicts markers only; loop counters and function objects are compared against the reference run",
 			"foreign string panics raised by host functions are catchable by script try (pinned by otto's Test_issue383); all other non-exception panic values must leave Run unchanged",
+			"unbuffered family: 'the sender is blocked in the send' is read from the Go runtime's goroutine dump (state \"chan send\"), reached by yielding, never by sleeping",
 			"runaway executions are cut with runtime.Goexit from the step hook (runs deferred functions, is not a panic); the engine watchdog is the backstop",
 		},
 		CrashIsViolation: true,
